@@ -125,6 +125,11 @@ def rand_checksum_entries(r):
         a = r.pick(pool)
         if a not in algs:
             algs.append(a)
+    if r.chance(1, 5):
+        for a in r.pick([["sha512", "sha512-256"], ["sha3", "sha3-256"], ["md", "md5"], ["blake2b", "blake2b-256"], ["sha", "sha1", "sha2"], ["a:b", "a:b c"],
+                         ["sha2", "sha2-256", "sha256"], ["b", "b1"], ["x-y", "x"]]):
+            if a not in algs:
+                algs.append(a)
     out = []
     for a in algs:
         nb = r.below(4)
@@ -138,6 +143,17 @@ def checksum_canon(entries):
 
 def checksum_spell(r, entries):
     es = r.shuffle(entries)
+    m = r.below(8)
+    if m == 0:
+        # canonical but for the order of the entries
+        return ",".join("%s:%s" % (a, h) for a, h in es)
+    if m == 1:
+        # canonical but for the letter case of one digest
+        k = r.below(len(es))
+        return ",".join("%s:%s" % (a, h.upper() if i == k else h) for i, (a, h) in enumerate(sorted(es, key=lambda e: e[0].encode())))
+    if m == 2:
+        # already canonical
+        return ",".join("%s:%s" % (a, h) for a, h in sorted(es, key=lambda e: e[0].encode()))
     return ",".join("%s:%s" % (flipcase(r, a), flipcase(r, h)) for a, h in es)
 
 
